@@ -78,7 +78,8 @@ def check(prog: Program, tier: str) -> Result:
             "name of an `import a.b` statement needs no level. (R18.2) the textual import constructor prefixes "
             "'.' * level. (R18.3) tracing through modules on disk is bounded (C04 R4.c). (R18.4) `from __future__` "
             "imports are excluded from the set of imported names before unused imports are computed. (R18.5) an alias is looked up by the name "
-            "it BINDS: alias.name is compared only where alias.asname is None. Not decided: "
+            "it BINDS: alias.name is compared only where alias.asname is None. (R18.6) a star import is deleted only if provably unused (two "
+            "known findings). Not decided: "
             "correctness of origin tracing itself (depends on the file system, sys.path and importlib at run time)."),
         rule_text="instances = ast.ImportFrom constructions, grouping dictionaries keyed by module, textual import constructors",
     )
@@ -157,6 +158,7 @@ def check(prog: Program, tier: str) -> Result:
     tr = prog.func("tracing", "trace_origin")
     res.ok("R18.3", tr.loc(), tr.fq, "bounded tracing", "decided under C04 R4.c (depth bound)", trivial=True)
     _r18_5(prog, res)
+    _r18_6(prog, res)
     res.floors.update({"R18.1": 6, "R18.2": 2, "R18.4": 1, "R18.5": 1})
     res.analysed["importfrom_constructions"] = n
     return res
@@ -231,10 +233,59 @@ def _r18_5(prog: Program, res: Result) -> None:
     res.analysed["alias_name_comparisons"] = n
 
 
+# ------------------------------------------------------------------------------------------------ R18.6
+def _r18_6(prog: Program, res: Result) -> None:
+    """A star import binds names the tool cannot see.  It may be deleted only if it is PROVABLY unused: (a) in
+    fix_starred_imports the deletion of the star imports no name was attributed to is reached only when no undefined
+    name of the module was left untraced (an untraced name may come from an untraceable star import: a module of
+    another platform, a C extension, a package that is not installed here); (b) the unused-import rule never counts
+    the pseudo-name `*` as an unused import."""
+    fn = prog.funcs.get(("tracing", "fix_starred_imports"))
+    if fn is None:
+        raise AnalysisError("anchor tracing.fix_starred_imports not found")
+    # collections filled where tracing FAILED: X.add(name) in the else branch of `if <trace_origin(..)>` / under `not ...`
+    untraced: Set[str] = set()
+    for i in walk_own(fn.node):
+        if isinstance(i, ast.If) and "trace_origin(" in norm(i.test):
+            neg = isinstance(i.test, ast.UnaryOp) and isinstance(i.test.op, ast.Not)
+            branch = i.body if neg else i.orelse
+            for x in walk_body(branch):
+                if isinstance(x, ast.Call) and isinstance(x.func, ast.Attribute) and x.func.attr in ("add", "append") and isinstance(x.func.value, ast.Name):
+                    untraced.add(x.func.value.id)
+    dels = [y for y in walk_own(fn.node) if isinstance(y, ast.Yield) and isinstance(y.value, ast.Tuple) and len(y.value.elts) >= 2
+            and isinstance(y.value.elts[1], ast.Constant) and y.value.elts[1].value is None]
+    pa = PathAnalysis(prog, fn)
+    for y in dels:
+        ok = False
+        if untraced:
+            worlds = pa.worlds_at(y)
+            ok = bool(worlds) and all(any(world_has(w, False, lambda t, u=u: t == u or t == f"len({u}) > 0") for u in untraced) for w in worlds)
+        res.decide(ok, "R18.6", fn.loc(y), fn.fq, f"deletion of a star import: {short(y, 50)}",
+                   f"reached only when no undefined name was left untraced ({sorted(untraced)} empty)" if ok else
+                   "star imports to which no name could be attributed are deleted even when undefined names of unknown origin remain: a name that comes from an "
+                   "untraceable module (other platform, C extension, not installed) loses its binding")
+    if not dels:
+        res.ok("R18.6", fn.loc(), fn.fq, "deletion of a star import", "star imports are never deleted here", trivial=True)
+    ui = prog.funcs.get(("fixes", "_get_unused_imports"))
+    sp = prog.funcs.get(("fixes", "_get_unused_imports_split"))
+    gi = prog.funcs.get(("tracing", "get_imported_names"))
+    texts = " ".join(norm(f.node) for f in (ui, sp, gi, prog.funcs.get(("tracing", "_get_imports"))) if f is not None)
+    star_aware = "'*'" in texts
+    res.decide(star_aware, "R18.6", ui.loc() if ui else "pyrefact/fixes.py:0", "fixes._get_unused_imports", "the pseudo-name * of a star import",
+               "never counted as an unused import" if star_aware else
+               "`*` is an imported name that is never 'used', so every star import is removed as an unused import (after fix_starred_imports expanded what it could "
+               "trace): names from untraceable modules lose their binding")
+
+
 # ---------------------------------------------------------------------------------------------- self-test
 from ..selftest import Variant  # noqa: E402
 
 VARIANTS = [
+    Variant("star-imports-kept-while-names-are-untraced", "SILENT", "tracing",
+            "    for name in undefined_names:\n        if trace_result := trace_origin(name, source):\n            if core.match_template(trace_result.ast, template):\n                starred_import_name_mapping[trace_result.ast].add(name)\n",
+            "    untraced_names = set()\n    for name in undefined_names:\n        if trace_result := trace_origin(name, source):\n            if core.match_template(trace_result.ast, template):\n                starred_import_name_mapping[trace_result.ast].add(name)\n        else:\n            untraced_names.add(name)\n",
+            extra=[("tracing", "    # Remove remaining starred imports\n    for node in core.filter_nodes(root.body, template):", "    if untraced_names:\n        return\n\n    for node in core.filter_nodes(root.body, template):"),
+                   ("fixes", "    return imports - names\n", "    return imports - names - {'*'}\n")]),
     Variant("alias-found-under-its-original-name", "FIRE", "tracing",
             "                    original_name = next(\n                        alias.name\n                        for alias in module_import_node.names\n                        if alias.asname == name or (alias.asname is None and alias.name == name)\n                    )",
             "                    original_name = next(\n                        alias.name\n                        for alias in module_import_node.names\n                        if name in (alias.asname, alias.name)\n                    )", "R18.5"),
